@@ -374,7 +374,9 @@ fn need_space(a: &Tok, b: &Tok) -> bool {
     if (la == '"' || la == '\'') && fb == la {
         return true;
     }
-    wordish_end(la) && wordish_start(fb)
+    // a name that ends in an escaped character (`k:v1\.`) would swallow a following word
+    let escaped_end = a.k == TK::Term && a.s.len() >= 2 && a.s.as_bytes()[a.s.len() - 2] == b'\\' && term_class(&a.s) == "prefixed_name";
+    (wordish_end(la) || escaped_end) && wordish_start(fb)
 }
 
 const WS: [&str; 8] = [" ", " ", "  ", "\t", "\n", "\r\n", "\n  ", " \t "];
@@ -511,7 +513,7 @@ enum Pos {
 const PREFIXES: [(&str, &str); 8] = [("k", "http://k/"), ("", "http://d/"), ("xsd", "http://www.w3.org/2001/XMLSchema#"), ("filter", "http://f/"), ("a", "http://a/"), ("true", "http://t/"), ("union", "http://u/"), ("kü", "http://ku/")];
 
 const X_IRI: [&str; 7] = ["<http://k/é€😀>", "<http://k/p#frag>", "<http://k/a?b=c&d=e>", "<http://k/\\u00e9x>", "<urn:x:y>", "<>", "<http://k/\\U0001F600>"];
-const X_PNAME: [&str; 17] = ["k:e1", ":x", "k:", ":", "k:a.b", "k:a-b", "k:%41x", "k:a\\-b", "k:été", "kü:x", "k:x:y", "k:1a", "filter:x", "a:b", "true:x", "union:u", "k:€😀"];
+const X_PNAME: [&str; 21] = ["k:e1", ":x", "k:", ":", "k:a.b", "k:a-b", "k:%41x", "k:a\\-b", "k:été", "kü:x", "k:x:y", "k:1a", "filter:x", "a:b", "true:x", "union:u", "k:€😀", "k:v1\\.", "k:a\\.b", "k:x\\#", "k:end%2E"];
 const X_BLANK: [&str; 4] = ["_:b1", "_:b.x", "_:1", "_:été"];
 const X_BARE: [&str; 11] = ["FILTERx", "unionized", "x-y", "graphite", "selectx", "bindx", "a1", "valuesx", "trueish", "é1", "limitless"];
 const X_LIT: [&str; 18] = [
